@@ -545,6 +545,9 @@ func genGP(cfg *config, r *rng, i int, s *sink) string {
 	case kind == 1:
 		s.count("gp.validate")
 		n := r.intn(6)
+		if r.chance(1, 3) {
+			n = 7 + r.intn(124) // long recordings: two- and three-digit chapter numbers
+		}
 		start := r.intn(3)
 		var chs []string
 		for k := 0; k < n; k++ {
@@ -594,6 +597,31 @@ func genGP(cfg *config, r *rng, i int, s *sink) string {
 		}
 		ents = append(ents, fmt.Sprintf("%s:%s:%d", hexStr(name), kindc, 1000+len(ents)))
 	}
+	if r.chance(1, 8) {
+		// a long recording: a contiguous group that reaches chapter 10 and beyond
+		k := 9 + r.intn(5)
+		first := 1
+		if r.chance(1, 4) {
+			first = 0
+		}
+		hero5 := r.chance(1, 2)
+		if hero5 {
+			ents = append(ents, fmt.Sprintf("%s:f:%d", hexStr("GOPR0042.mp4"), 1000+len(ents)))
+		}
+		for c := first; c < first+k; c++ {
+			name := fmt.Sprintf("GX%02d0042.mp4", c)
+			if hero5 {
+				if c == 0 {
+					continue
+				}
+				name = fmt.Sprintf("GP%02d0042.mp4", c)
+			}
+			if !seen[name] {
+				seen[name] = true
+				ents = append(ents, fmt.Sprintf("%s:f:%d", hexStr(name), 1000+len(ents)))
+			}
+		}
+	}
 	if r.chance(1, 12) {
 		ents = nil
 	}
@@ -640,6 +668,14 @@ func genGP(cfg *config, r *rng, i int, s *sink) string {
 		hexList(args), hexList(skip), r.intn(2), fault, x)
 }
 
+func chapterRange(from, to int) []string {
+	var out []string
+	for c := from; c <= to; c++ {
+		out = append(out, fmt.Sprintf("%02d", c))
+	}
+	return out
+}
+
 func corpusGP(cfg *config) []string {
 	ops := []string{
 		"match Hero5 " + hexStr("GP010001xmp4"),
@@ -649,6 +685,10 @@ func corpusGP(cfg *config) []string {
 		"args " + hexList([]string{"-metadata", "", "-i", ""}),
 		"args " + hexList([]string{"", "-i", ""}),
 		"validate ~",
+		"validate " + hexList(chapterRange(1, 10)),
+		"validate " + hexList(chapterRange(0, 10)),
+		"validate " + hexList(chapterRange(1, 99)),
+		"validate " + hexList(chapterRange(0, 100)),
 		"osfs w:" + hexStr("a.mp4") + ",h:" + hexStr("a.mp4") + ":1111111:2222222,s:" + hexStr("a.mp4") + ",t:" + hexStr("gopro-process-") + ",d,r:" + hexStr("a.mp4") + ",s:" + hexStr("a.mp4"),
 	}
 	// every single failing operation of one fixed scenario (fault enumeration in support of
